@@ -162,6 +162,11 @@ def gen_sequence(rng, length):
                 (rng.sample(have, min(m, len(have))) + ([rng.choice(other)] if other and rng.random() < 0.3 else []))
             rng.shuffle(olds)
             news = [rng.choice(other) if other and rng.random() < 0.8 else rng.randrange(len(UNIVERSE)) for _ in olds]
+            if have and len(other) >= 2 and rng.random() < 0.3:
+                # a chain inside one dict: the new name of an entry is the old name of a later entry and no field before the
+                # call (membership is decided against the field list as it was before the call: no chaining)
+                b_, c_ = rng.sample(other, 2)
+                olds, news = [rng.choice(have), b_], [b_, c_]
             emit({'op': 'rename', 'c': c, 'convs': [[o, n] for o, n in zip(olds, news)], 'must': rng.random() < 0.5})
         elif k == 'tidyUp':
             keep, form = gen_keep_arg(rng, have)
@@ -263,6 +268,7 @@ EXH_FULL = EXH_ALPHABET + [
     {'op': 'copy', 'c': 0, 'keep': [5], 'form': 'str', 'via_ctor': True},   # true_ra as a plain str through the constructor
     {'op': 'rename', 'c': 0, 'convs': [[0, 5], [1, 4]], 'must': False},  # ra -> true_ra, dec -> sin_dec
     {'op': 'tidyUp', 'c': 0, 'keep': [1, 0], 'form': 'tuple'},
+    {'op': 'rename', 'c': 0, 'convs': [[0, 2], [2, 3]], 'must': False},  # a chain in one dict (ra -> time, time -> run): not chained
 ]
 # a second start: three rows with a bool and a float64 column, and an empty partner
 EXH_INIT_B = [
